@@ -288,7 +288,12 @@ Definition mon_poll (p : params) (napps : nat) (m : mon) (s : pstep) : mon * lis
     | None => if kind_in k1 [KCheckTokenPass; KPassToken] then m_pass m else None
     end in
   (* ------------------------------------------------ C12 *)
-  let new_visit := state_kind_eqb k1 KUseToken && negb (kind_in k0 [KUseToken; KAwaitDataResponse]) in
+  (* F20 repair: a visit ends in the poll that finds nothing (more) to send - do_use_token goes on to
+     do_pass_token in the same poll.  A station that is its own successor passes the token to itself in
+     that poll (token TS -> TS out of a token-use state) and is in UseToken again: its next visit. *)
+  let self_pass := kind_in k0 [KUseToken; KAwaitDataResponse] &&
+                   match token_tx with Some (da, sa) => (da =? ts) && (sa =? ts) | None => false end in
+  let new_visit := state_kind_eqb k1 KUseToken && (negb (kind_in k0 [KUseToken; KAwaitDataResponse]) || self_pass) in
   let gap_poll :=
     match txt with
     | Some (TData h _) =>
@@ -452,7 +457,12 @@ Definition mon_poll2 (p : params) (napps : nat) (m : mon) (g : mon2) (s : pstep)
               | None => if kind_in k1 [KAwaitStatusResponse; KClaimToken] then g_wait g else None
               end in
   (* ---- C12: sweep bound ---- *)
-  let visit_tx := match token_tx with Some _ => kind_in k0 [KPassToken; KAwaitStatusResponse] | None => false end in
+  (* the token transmission that ends a visit: from PassToken / AwaitStatusResponse, or (F20 repair) in the
+     last poll of the token-use states *)
+  let visit_tx := match token_tx with
+                  | Some _ => kind_in k0 [KPassToken; KAwaitStatusResponse; KUseToken; KAwaitDataResponse]
+                  | None => false
+                  end in
   let claim_tx := match token_tx with Some da => (da =? ts) && kind_in k0 [KListenToken; KActiveIdle; KClaimToken] | None => false end in
   let restart := negb (v_ns post =? v_ns pre) || claim_tx || kind_in k1 [KListenToken; KOffline] in
   let last1 := match gap_poll with
@@ -474,7 +484,9 @@ Definition mon_poll2 (p : params) (napps : nat) (m : mon) (g : mon2) (s : pstep)
                                     else check (now <? h_end g) R13_low_prio_after_hold_time
                                 | _ => []
                                 end) (s_calls s) in
-  let new_visit := state_kind_eqb k1 KUseToken && negb (kind_in k0 [KUseToken; KAwaitDataResponse]) in
+  let self_pass := kind_in k0 [KUseToken; KAwaitDataResponse] &&
+                   match token_tx with Some da => da =? ts | None => false end in
+  let new_visit := state_kind_eqb k1 KUseToken && (negb (kind_in k0 [KUseToken; KAwaitDataResponse]) || self_pass) in
   let hend := if new_visit
               then m_tt m + token_rotation_time p -
                    (if v_gap_due post then p_bits_to_time p (p_slot_bits p + prop_gap_reserve_extra_bits) else 0)
@@ -514,15 +526,19 @@ Definition mon_poll2 (p : params) (napps : nat) (m : mon) (g : mon2) (s : pstep)
            (turn, decl, errs ++ check (Nat.eqb i turn) R15_round_robin)
        end) (s_calls s) (r_turn g, r_decl g, []) in
   let '(turn1, decl1, e_rr) := rr in
+  (* the visit has ended in this poll (C15Proofs: pass_kind, or the next visit of a station that is its own
+     successor): the station is passing the token - PassToken (synchronisation pause), AwaitStatusResponse
+     (GAP request sent), CheckTokenPass (token sent) - or has passed it to itself *)
+  let passed := kind_in k1 [KPassToken; KAwaitStatusResponse; KCheckTokenPass] || self_pass in
   let e_end :=
     if in_vis k0 then
       (if Nat.ltb 0 napps && Nat.eqb decl1 napps
-       then check (state_kind_eqb k1 KPassToken) R15_not_passed_after_all_declined else []) ++
-      (if state_kind_eqb k1 KPassToken
+       then check passed R15_not_passed_after_all_declined else []) ++
+      (if passed
        then check (Nat.eqb decl1 napps || (h_end g <=? now)) R15_passed_before_all_declined else [])
     else [] in
   let turn2 := if state_kind_eqb k1 KOffline then 0%nat else turn1 in
-  let decl2 := if in_vis k1 then (if in_vis k0 then decl1 else 0%nat) else 0%nat in
+  let decl2 := if in_vis k1 then (if in_vis k0 && negb self_pass then decl1 else 0%nat) else 0%nat in
   (mkMon2 wait expect visit last2 hend scan turn2 decl2,
    e_found ++ e_tok ++ e_sweep ++ e13 ++ e_scan ++ e_rr ++ e_end).
 
